@@ -5,11 +5,8 @@ from props import gen_props
 
 def run(ctx):
     from props import gen_unbounded
-    gen_unbounded.run(ctx)          # unbounded part: the std::ref binding functions for any number of events
-    gen_unbounded.run_reroute(ctx)  # unbounded part: the rerouting handlers for any number of events / parameters
-    ctx.interp.model_strings_break_free = True
-    only = os.environ.get('PYVC_SHAPES')
-    gen_props.run_property(ctx, 'C01', only.split(',') if only else None)
+    # the composition on the shape corpus, then the unbounded function contracts (DESIGN.md 8.6)
+    gen_unbounded.run_with_composition(ctx, 'C01', [('std-ref', gen_unbounded.run), ('reroute', gen_unbounded.run_reroute)])
 
 
 def make_replay(ctx, o):
